@@ -186,6 +186,7 @@ type PCT struct {
 // Reset prepares the decider for a run.
 func (p *PCT) Reset() { p.next, p.want = 0, -1 }
 
+//go:norace
 func (p *PCT) Preempt(step, site, task int) bool {
 	if p.next < len(p.Points) && step >= p.Points[p.next] {
 		p.want = p.Targets[p.next]
@@ -195,6 +196,7 @@ func (p *PCT) Preempt(step, site, task int) bool {
 	return false
 }
 
+//go:norace
 func (p *PCT) Next(runnable []int, prev int) int {
 	if p.want >= 0 {
 		w := p.want
@@ -221,7 +223,10 @@ type Chaos struct {
 	Rand func() uint64
 }
 
+//go:norace
 func (c *Chaos) Preempt(step, site, task int) bool { return c.Rand()%uint64(c.Den) == 0 }
+
+//go:norace
 func (c *Chaos) Next(runnable []int, prev int) int {
 	return runnable[int(c.Rand()%uint64(len(runnable)))]
 }
